@@ -373,23 +373,24 @@ def recentre (f : Lin K) (c : K × K) : K × K :=
 variable [HasTrig K]
 
 /-- the selector block of `iter_linear_fit` -/
-def singleOf (g : FitGeom) (eps : K) : Single K :=
+def singleOf (g : FitGeom) (eps epsD : K) : Single K :=
   match g with
   | .shift => fitShifts
   | .rshift => fun o wx wu => fitRscale o wx wu (some oneK)
   | .rscale => fun o wx wu => fitRscale o wx wu none
-  | .general => fitGeneral eps
+  | .general => fitGeneral eps epsD
 
 /-- `fit_general` hands the raw weights to `_compute_stat`, the others the normalised ones -/
 def FitGeom.normalised : FitGeom → Bool
   | .general => false
   | _ => true
 
-/-- `iter_linear_fit` as the code runs it (`eps` is the pivot threshold of `inv`) -/
-def iterLinearFit [HasSqrt K] (eps : K) (g : FitGeom) (obs : List (Obs K)) (wxy wuv : Option (List K))
+/-- `iter_linear_fit` as the code runs it (`eps` is the pivot threshold of `inv`, `epsD` the
+threshold of the collinearity guard of `fit_general`) -/
+def iterLinearFit [HasSqrt K] (eps epsD : K) (g : FitGeom) (obs : List (Obs K)) (wxy wuv : Option (List K))
     (center : Option (K × K)) (nclip : Option Int) (sigma : Option (K × String)) (accum : Bool) :
     Except FitErr (IterRes K) :=
-  iterLinearFitWith (singleOf g eps) g.normalised euclid g.minobj obs wxy wuv center nclip sigma accum
+  iterLinearFitWith (singleOf g eps epsD) g.normalised euclid g.minobj obs wxy wuv center nclip sigma accum
 
 end
 
@@ -397,19 +398,19 @@ section
 variable {K : Type} [Add K] [Sub K] [Mul K] [Div K] [Neg K] [LT K] [DecidableLT K] [NatCast K]
 
 /-- trigonometry-free selector (`shift` and `general` only), for exact rational runs -/
-def singleOfQ (g : FitGeom) (eps : K) : Option (Single K) :=
+def singleOfQ (g : FitGeom) (eps epsD : K) : Option (Single K) :=
   match g with
   | .shift => some fitShifts
-  | .general => some (fitGeneral eps)
+  | .general => some (fitGeneral eps epsD)
   | _ => none
 
 /-- `iter_linear_fit` with the root-free metric: the cutoff test `‖r‖ < nsigma·rmse` is
 evaluated as `‖r‖² < nsigma²·mse` (equivalent for `nsigma > 0`, see `Proofs/C07.lean`);
 statistic `rmse` only.  The returned `stats.rmse` is the mean square. -/
-def iterLinearFitSq (eps : K) (g : FitGeom) (obs : List (Obs K)) (wxy wuv : Option (List K))
+def iterLinearFitSq (eps epsD : K) (g : FitGeom) (obs : List (Obs K)) (wxy wuv : Option (List K))
     (center : Option (K × K)) (nclip : Option Int) (nsigma : Option K) (accum : Bool) :
     Except FitErr (IterRes K) :=
-  match singleOfQ g eps with
+  match singleOfQ g eps epsD with
   | none => .error .badArg
   | some single =>
     iterLinearFitWith single g.normalised squared g.minobj obs wxy wuv center nclip
